@@ -32,7 +32,7 @@ def run(ded, repo, tier):
                'opaque iterable is a list whose items are the same at every traversal; the proved postcondition of update and '
                'update_extend is the invariant (they act only through add / []= / del, whose contracts fix each step)')
     ded.trust('not under contract (bounded only): __init__/copy/pickling, == / !=, itervalues, '
-              'items() (a list of tuples), __iter__, __reversed__ and the derived views (todict, counts, inverted, sorted...), QueryParamDict')
+              '__iter__, __reversed__ and the derived views (todict, counts, inverted, sorted...), QueryParamDict')
     ded.assume('completeness of the ordered readers is stated as: the walk starts at the oldest and ends at the newest cell, '
                'follows stamp successors, and no live cell lies strictly between two consecutive items; that every pair is '
                'therefore yielded exactly once is a one-line discrete argument that is not mechanised')
